@@ -25,21 +25,25 @@ from lerax.space import Box, Discrete  # noqa: E402
 
 
 class StubQ(AbstractQPolicy):
+    """tabular, STATEFUL Q-function: Q(state h, obs) = QT[obs] + HB[h] (HB = 0 when the policy state is None)"""
     name: ClassVar[str] = "StubQ"
     action_space: Discrete
     observation_space: Discrete
     epsilon: float
     QT: Array
+    HB: Array
 
-    def __init__(self, qt):
-        self.QT = jnp.asarray(qt, dtype=float)
+    def __init__(self, qt, hb=(0.0,)):
+        self.QT = jnp.asarray(qt, dtype=float); self.HB = jnp.asarray(hb, dtype=float)
         self.action_space = Discrete(self.QT.shape[1]); self.observation_space = Discrete(self.QT.shape[0]); self.epsilon = 0.0
 
     def reset(self, *, key):
         return None
 
     def q_values(self, state, observation):
-        return state, self.QT[observation]
+        if state is None:
+            return state, self.QT[observation]
+        return state, self.QT[observation] + self.HB[state.h]
 
 
 class StubSAC(AbstractSACPolicy):
@@ -74,10 +78,17 @@ class StubCritic(eqx.Module):
         return self.W[observation] + self.C * action
 
 
-def fill(obs_space, act_space, rows):
-    b = ReplayBuffer(len(rows), obs_space, act_space, None)
-    for (o, no, a, r, d, t) in rows:
-        b = b.add(jnp.asarray(o), jnp.asarray(no), jnp.asarray(a), r, d, t, None, None)
+def fill(obs_space, act_space, rows, hs=None):
+    """hs: per row (policy state before, policy state after) for stateful Q-functions"""
+    from harness.stubs import TabPState
+    if hs is None:
+        b = ReplayBuffer(len(rows), obs_space, act_space, None)
+        for (o, no, a, r, d, t) in rows:
+            b = b.add(jnp.asarray(o), jnp.asarray(no), jnp.asarray(a), r, d, t, None, None)
+        return b
+    b = ReplayBuffer(len(rows), obs_space, act_space, TabPState(jnp.asarray(0)))
+    for (o, no, a, r, d, t), (h, h2) in zip(rows, hs):
+        b = b.add(jnp.asarray(o), jnp.asarray(no), jnp.asarray(a), r, d, t, TabPState(jnp.asarray(h)), TabPState(jnp.asarray(h2)))
     return b
 
 
@@ -102,18 +113,28 @@ def body(ck):
         rows = [(int(rng.integers(0, NO)), int(rng.integers(0, NO)), int(rng.integers(0, NA)), dy(-8, 8, 4), d, t) for d, t in flags]
         ck.current_case = {"kind": "dqn", "rows": rows, "gamma": gamma}
         qt_on = [[dy(-8, 8, 2) for _ in range(NA)] for _ in range(NO)]; qt_tg = [[dy(-8, 8, 2) for _ in range(NA)] for _ in range(NO)]
-        online, target = StubQ(qt_on), StubQ(qt_tg)
-        batch = fill(Discrete(NO), Discrete(NA), rows)
+        # every other case uses a stateful Q-function: the policy state stored with s and the one stored with s' differ
+        NH = 3
+        stateful = idx % 2 == 0
+        hb_on = [dy(-4, 4, 2) for _ in range(NH)] if stateful else [0.0] * NH
+        hb_tg = [dy(-4, 4, 2) for _ in range(NH)] if stateful else [0.0] * NH
+        hs = [(int(rng.integers(0, NH)), int(rng.integers(0, NH))) for _ in rows]
+        online, target = StubQ(qt_on, hb_on), StubQ(qt_tg, hb_tg)
+        batch = fill(Discrete(NO), Discrete(NA), rows, hs if stateful else None)
+        if not stateful:
+            hs = [(0, 0) for _ in rows]
         loss = float(DQN.dqn_loss(online, batch, target, gamma))
         lval, grads = DQN.dqn_loss_grad(online, batch, target, gamma)
         if jax.tree.structure(grads) != jax.tree.structure(eqx.filter(online, eqx.is_inexact_array)):
             ck.violations.append(Violation("impl-violates-property", "C07/DQN/grad-structure", "dqn_loss_grad does not return gradients for the online policy only", case=ck.current_case))
-        lit = (f"CDqn {ql(gamma)} {listl(ql(qt_on[o][a]) for o, _, a, _, _, _ in rows)} {listl(ql(r) for _, _, _, r, _, _ in rows)} "
-               f"{listl(listl(ql(x) for x in qt_on[no]) for _, no, _, _, _, _ in rows)} {listl(listl(ql(x) for x in qt_tg[no]) for _, no, _, _, _, _ in rows)} "
+        lit = (f"CDqn {ql(gamma)} {listl(ql(qt_on[o][a] + hb_on[h]) for (o, _, a, _, _, _), (h, _) in zip(rows, hs))} {listl(ql(r) for _, _, _, r, _, _ in rows)} "
+               f"{listl(listl(ql(x + hb_on[h2]) for x in qt_on[no]) for (_, no, _, _, _, _), (_, h2) in zip(rows, hs))} "
+               f"{listl(listl(ql(x + hb_tg[h2]) for x in qt_tg[no]) for (_, no, _, _, _, _), (_, h2) in zip(rows, hs))} "
                f"{listl(bl(d) for *_, d, _ in rows)} {listl(bl(t) for *_, t in rows)} {ql(loss)}")
-        j = {"kind": "DQN.dqn_loss", "gamma": gamma, "rows[obs,next_obs,action,reward,done,timeout]": rows, "q_online": qt_on, "q_target": qt_tg, "impl_loss": loss}
+        j = {"kind": "DQN.dqn_loss", "gamma": gamma, "rows[obs,next_obs,action,reward,done,timeout]": rows, "q_online": qt_on, "q_target": qt_tg,
+             "stateful_q": stateful, "state_bias_online": hb_on, "state_bias_target": hb_tg, "policy_states[before,after]": hs, "impl_loss": loss}
         cases.append(lit); cj.append(j)
-        ck.case_seen(("dqn", idx) if B >= 2 else None, sample=j); ck.count("dqn_batches")
+        ck.case_seen(("dqn", idx) if B >= 2 else None, sample=j); ck.count("dqn_batches"); ck.count("dqn_stateful_q" if stateful else "dqn_stateless_q")
         # ---- SAC
         alpha = float(rng.choice([0.25, 0.5, 1.0]))
         A = [dy(-4, 4, 4) for _ in range(NO)]; LPt = [dy(-8, 0, 4) for _ in range(NO)]
